@@ -24,10 +24,15 @@ def run_demo(tree, seed, meta):
     kind = demo.get("kind", "test")
     if kind == "test" or os.path.exists(os.path.join(seed, "demo_test.go")):
         d = demo.get("dir", "").strip("/") or "uhppote"
+        if d.startswith("./"):
+            d = d[2:]
         dst = os.path.join(tree, d, "zz_seed_demo_test.go")
         shutil.copy(os.path.join(seed, "demo_test.go"), dst)
-        rc, out = sh("go test -count=1 -run . ./%s/ 2>&1 | tail -40" % d + "; exit ${PIPESTATUS[0]}", cwd=tree, env=dict(ENV, SHELL="/bin/bash"))
-        rc, out = sh(f"bash -c 'set -o pipefail; go test -count=1 ./{d}/ 2>&1 | tail -40'", cwd=tree)
+        import re
+        names = re.findall(r"^func (Test\w+)\(", open(dst).read(), re.M)
+        pattern = "^(" + "|".join(names) + ")$"
+        race = "-race" if "-race" in demo.get("run", "") else ""
+        rc, out = sh(f"bash -c 'set -o pipefail; go test -count=1 {race} -run \"{pattern}\" ./{d}/ 2>&1 | tail -40'", cwd=tree)
         os.remove(dst)
         return rc, out
     # program
@@ -63,8 +68,13 @@ def main():
             result["confirmed"] = False
             result["why"] = "patch does not apply: " + out[-400:]
             return result
-        rc, out = sh("go build ./... && go vet ./... && go test -count=1 ./... 2>&1 | tail -15", cwd=mutated)
-        rc2, out2 = sh("bash -c 'set -o pipefail; go build ./... && go test -count=1 ./... 2>&1 | tail -15'", cwd=mutated)
+        # the library's own suite binds fixed ports (127.0.0.1:12345 ...): serialise it and retry on a busy port
+        for attempt in range(8):
+            rc2, out2 = sh("flock /tmp/uhppote-suite.lock bash -c 'go build ./... && go vet ./... && go test -count=1 ./... 2>&1'", cwd=mutated)
+            if rc2 == 0 or "address already in use" not in out2:
+                break
+            time.sleep(7)
+        out2 = "\n".join(l for l in out2.splitlines() if "FAIL" in l or "rror" in l)[-900:]
         result["suite_passes_with_change"] = rc2 == 0
         if rc2 != 0:
             result["confirmed"] = False
